@@ -90,6 +90,10 @@ fn from_explore<M: Model>(name: String, engine: &str, bound: u32, out: explore::
         exhaustive: !out.stats.time_capped && out.stats.depth_capped_runs == 0,
         ..Default::default()
     };
+    r.extra.insert("run_queue_pick_points".into(), json!(out.stats.pick_points));
+    r.extra.insert("run_queue_alternatives".into(), json!(out.stats.pick_alternatives));
+    r.extra.insert("preemption_points".into(), json!(out.stats.sync_points));
+    r.extra.insert("preemption_alternatives".into(), json!(out.stats.park_alternatives));
     for f in out.found {
         r.found.push(FoundAny {
             cost: f.cost,
@@ -304,6 +308,10 @@ fn run_check(id: &str, thorough: bool) -> i32 {
         "deviation_bound_min_over_scenarios": min_bound,
         "jobs_total": results.len(),
         "determinism_rechecks": results.iter().map(|r| r.rechecks).sum::<u64>(),
+        "run_queue_pick_points": results.iter().filter_map(|r| r.extra.get("run_queue_pick_points").and_then(|v| v.as_u64())).sum::<u64>(),
+        "run_queue_orders_explored": results.iter().filter_map(|r| r.extra.get("run_queue_alternatives").and_then(|v| v.as_u64())).sum::<u64>(),
+        "preemption_points": results.iter().filter_map(|r| r.extra.get("preemption_points").and_then(|v| v.as_u64())).sum::<u64>(),
+        "preemptions_explored": results.iter().filter_map(|r| r.extra.get("preemption_alternatives").and_then(|v| v.as_u64())).sum::<u64>(),
         "jobs": per_job,
         "known_findings_reproduced": known_hits,
         "explanation": "There is no separate model of the plugin: every counted transition is an execution of the implementation compiled from /repo/src (by #[path]) under the controlled scheduler; `traces_validated_against_impl` therefore equals the number of complete histories executed. Only the environment (SimNode) is modelled.",
@@ -322,8 +330,8 @@ fn run_check(id: &str, thorough: bool) -> i32 {
         "coverage": coverage,
         "assumptions": [
             "A1-A5 of DESIGN.md section 2.4 (Core Lightning contract: pay endings vs parts, no new parts without a running pay, HTLC amount bounds, waitsendpay codes, finitely many faults)",
-            "tokio current-thread scheduling: plugin tasks interleave only at .await points; every shared access is under tokio::sync primitives",
-            "rustc / cargo; vendored tokio 1.38.0 with the select-hook patch (vendor/tokio.patch)"
+            "plugin tasks interleave only at .await points (every shared access is under tokio::sync primitives); among runnable tasks the oldest runs first except at one moment per step, where every other order is explored as a deviation",
+            "rustc / cargo; vendored tokio 1.38.0 with the select-hook and run-queue-hook patch (vendor/tokio.patch)"
         ],
         "wall_s": t0.elapsed().as_secs_f64(),
         "violations": violations,
@@ -331,7 +339,7 @@ fn run_check(id: &str, thorough: bool) -> i32 {
     let _ = std::fs::create_dir_all(format!("{}/evidence", out_dir()));
     let _ = std::fs::write(format!("{}/evidence/{}.json", out_dir(), id), serde_json::to_string_pretty(&evidence).unwrap());
     println!(
-        "{} {}: jobs {} histories {} states {} transitions {} evaluations {} outcomes {} caps {} wall {:.1}s",
+        "{} {}: jobs {} histories {} states {} transitions {} evaluations {} outcomes {} run-queue orders {} preemptions {} caps {} wall {:.1}s",
         id,
         if thorough { "thorough" } else { "quick" },
         results.len(),
@@ -340,6 +348,8 @@ fn run_check(id: &str, thorough: bool) -> i32 {
         transitions,
         evals,
         distinct,
+        results.iter().filter_map(|r| r.extra.get("run_queue_alternatives").and_then(|v| v.as_u64())).sum::<u64>(),
+        results.iter().filter_map(|r| r.extra.get("preemption_alternatives").and_then(|v| v.as_u64())).sum::<u64>(),
         capped.len(),
         t0.elapsed().as_secs_f64()
     );
@@ -516,6 +526,8 @@ fn run_replay(path: &str) -> i32 {
     let prop = doc["property"].as_str().unwrap_or("");
     let labels: Vec<String> = doc["labels"].as_array().map(|a| a.iter().filter_map(|x| x.as_str().map(|s| s.to_string())).collect()).unwrap_or_default();
     println!("replaying {} engine {} scenario {}", path, engine, scenario);
+    // the replay thread owns select! start branches and the run-queue order exactly as the search workers do
+    sched::own_select();
     let (log, vs): (Vec<String>, Vec<Violation>) = match engine {
         "W" => {
             let cfg = match find_w_cfg(scenario) {
